@@ -446,6 +446,67 @@ func c10SgxDER(r *mc.Run, b *c01base) {
 		}
 	}
 	cases = append(cases, dcase{"sgxder/empty", []byte{}}, dcase{"sgxder/null", []byte{5, 0}}, dcase{"sgxder/emptyseq", []byte{0x30, 0}})
+	// element counts: every top-level element repeated 1..4 more times (at the end and right behind itself), all of
+	// them twice, one or more removed; every TCB element repeated; an extension of 40 unknown elements
+	{
+		top, tcb := world.SGXElems(b.w.Plat)
+		order := []string{"ppid", "tcb", "pceid", "fmspc", "type"}
+		elem := func(k string) []byte {
+			if k == "tcb" {
+				return world.SGXTcbElem(tcb)
+			}
+			return top[k]
+		}
+		for i, k := range order {
+			for extra := 1; extra <= 4; extra++ {
+				var atEnd, behind [][]byte
+				for j, kk := range order {
+					atEnd = append(atEnd, elem(kk))
+					behind = append(behind, elem(kk))
+					if j == i {
+						for e := 0; e < extra; e++ {
+							behind = append(behind, elem(kk))
+						}
+					}
+				}
+				for e := 0; e < extra; e++ {
+					atEnd = append(atEnd, elem(k))
+				}
+				cases = append(cases, dcase{fmt.Sprintf("sgxder/repeat/%s+%d-at-end", k, extra), world.DERSeq(atEnd...)},
+					dcase{fmt.Sprintf("sgxder/repeat/%s+%d-behind-itself", k, extra), world.DERSeq(behind...)})
+			}
+			var without [][]byte
+			for j, kk := range order {
+				if j != i {
+					without = append(without, elem(kk))
+				}
+			}
+			cases = append(cases, dcase{"sgxder/without/" + k, world.DERSeq(without...)})
+			cases = append(cases, dcase{"sgxder/only/" + k, world.DERSeq(elem(k))})
+		}
+		var twice, unknown [][]byte
+		for _, kk := range order {
+			twice = append(twice, elem(kk), elem(kk))
+		}
+		cases = append(cases, dcase{"sgxder/repeat/all-twice", world.DERSeq(twice...)})
+		for i := 0; i < 40; i++ {
+			unknown = append(unknown, world.DERSeq(world.DEROID([]int{1, 2, 840, 113741, 1, 13, 1, 40 + i}), world.DEROctet([]byte{byte(i)})))
+		}
+		cases = append(cases, dcase{"sgxder/40-unknown-elements", world.DERSeq(unknown...)})
+		cases = append(cases, dcase{"sgxder/known+40-unknown-elements", world.DERSeq(append(append([][]byte{}, twice[0], twice[2], twice[4], twice[6], twice[8]), unknown...)...)})
+		for i := range tcb {
+			t2 := append(append([][]byte(nil), tcb...), tcb[i])
+			var seq [][]byte
+			for _, kk := range order {
+				if kk == "tcb" {
+					seq = append(seq, world.SGXTcbElem(t2))
+				} else {
+					seq = append(seq, elem(kk))
+				}
+			}
+			cases = append(cases, dcase{fmt.Sprintf("sgxder/repeat/tcb-element%d", i+1), world.DERSeq(seq...)})
+		}
+	}
 	pki := b.w.PKI
 	done := r.Parallel(len(cases), func(i int) {
 		c := cases[i]
